@@ -302,13 +302,24 @@ Proof.
   - simpl. fold (remove_var v vs). rewrite (IH H). ring.
 Qed.
 
-Theorem den_prod_of : forall a v r, e_prod_of a v = Some r -> den a = rho v * den r.
+Lemma den_fold_add : forall (g : part -> part) l acc,
+  den (fold_left (fun acc p => e_add w acc [g p]) l acc) == den acc + den (map g l).
+Proof.
+  intros g. induction l as [|p l IH]; intros acc; cbn [fold_left map].
+  - rewrite den_nil, Z.add_0_r. reflexivity.
+  - rewrite IH, den_add, !den_cons, den_nil. ring_simplify. reflexivity.
+Qed.
+
+Theorem den_prod_of : forall a v r, e_prod_of w a v = Some r -> den a == rho v * den r.
 Proof.
   intros a v r H. unfold e_prod_of in H.
   destruct (forallb (fun p => (count v (snd p) =? 1)%nat) a) eqn:F; [|discriminate]. injection H as <-.
-  revert F. induction a as [|p a IH]; intros F; [simpl; ring|].
-  simpl in F. apply andb_true_iff in F. destruct F as [F1 F2]. apply Nat.eqb_eq in F1.
-  cbn [map]. rewrite !den_cons, (IH F2). unfold dpart. cbn [fst snd]. rewrite (mon_remove_one v _ F1). ring.
+  rewrite (den_fold_add (fun p => (fst p, remove_var v (snd p)))), den_nil, Z.add_0_l.
+  assert (E : den a = rho v * den (map (fun p => (fst p, remove_var v (snd p))) a)).
+  { revert F. induction a as [|p a IH]; intros F; [simpl; ring|].
+    simpl in F. apply andb_true_iff in F. destruct F as [F1 F2]. apply Nat.eqb_eq in F1.
+    cbn [map]. rewrite !den_cons, (IH F2). unfold dpart. cbn [fst snd]. rewrite (mon_remove_one v _ F1). ring. }
+  rewrite E. reflexivity.
 Qed.
 
 (** ** decompositions that rely on the shape of reachable expressions:
@@ -769,8 +780,8 @@ Proof. intros. rewrite (eval_den w Hw), (den_identity rho a x H). reflexivity. Q
 Theorem eval_const_inc_of : forall rho a v c, e_const_inc_of a v = Some c -> eval w a rho == rho v + c.
 Proof. intros. rewrite (eval_den w Hw), (den_const_inc_of rho a v c H). reflexivity. Qed.
 
-Theorem eval_prod_of : forall rho a v r, e_prod_of a v = Some r -> eval w a rho == rho v * eval w r rho.
-Proof. intros. rewrite !(eval_den w Hw), (den_prod_of rho a v r H). reflexivity. Qed.
+Theorem eval_prod_of : forall rho a v r, e_prod_of w a v = Some r -> eval w a rho == rho v * eval w r rho.
+Proof. intros. rewrite !(eval_den w Hw), (den_prod_of w Hw rho a v r H). reflexivity. Qed.
 
 Theorem eval_inc_of_partial : forall rho a v r, singles_unique v a -> e_inc_of a v = Some r ->
   eval w a rho == rho v + eval w r rho.
